@@ -94,7 +94,29 @@ def theorem_names(pid: str):
     return names, (ns.group(1) if ns else None)
 
 
-def audit(pid: str, use_cache: bool = True) -> dict:
+def leancheck(pid: str) -> tuple[bool, str]:
+    """thorough tier: replay the declarations of the property module and of every project module it imports
+    through leanchecker (the toolchain's independent re-checker of compiled .olean files); cached by source hash"""
+    mods = []
+    for f in import_closure(pid):
+        rel = os.path.relpath(f, LEAN_DIR)[:-5].replace(os.sep, ".")
+        if rel.startswith("Toq.") and not rel.startswith("Toq.Driver"):
+            mods.append(rel)
+    adir = os.path.join(LEAN_DIR, ".lake", "audit")
+    os.makedirs(adir, exist_ok=True)
+    cache = os.path.join(adir, f"{pid}.leanchecker.json")
+    key = source_hash()
+    if os.path.exists(cache):
+        c = json.load(open(cache))
+        if c.get("key") == key:
+            return c["ok"], c["out"]
+    r = subprocess.run(["lake", "env", "leanchecker"] + sorted(set(mods)), cwd=LEAN_DIR, capture_output=True, text=True)
+    ok, out = r.returncode == 0, (r.stdout + r.stderr)[-1500:]
+    json.dump({"key": key, "ok": ok, "out": out, "modules": sorted(set(mods))}, open(cache, "w"))
+    return ok, out
+
+
+def audit(pid: str, use_cache: bool = True, tier: str = "quick") -> dict:
     """returns dict(obligations, discharged, theorems, axioms_used, problems, checker_cmd)"""
     names, ns = theorem_names(pid)
     res = {
@@ -149,6 +171,11 @@ def audit(pid: str, use_cache: bool = True) -> dict:
             res["problems"].append(f"theorem {m.group(1)} uses axioms {sorted(ax - ALLOWED_AXIOMS)}")
     for m in re.finditer(r"'([^']+)' does not depend on any axioms", out):
         ok_names.add(m.group(1).split(".")[-1])
+    if tier == "thorough":
+        ok_lc, out_lc = leancheck(pid)
+        res["leanchecker"] = "ok" if ok_lc else out_lc
+        if not ok_lc:
+            res["problems"].append("leanchecker: " + out_lc[-600:])
     res["axioms_used"] = sorted(used)
     res["discharged"] = sum(1 for n in names if n.split(".")[-1] in ok_names)
     if res["discharged"] != len(names):
